@@ -419,3 +419,18 @@ Proof.
         match type of Hd with match cchecks _ _ _ ?cx ?r ?g ?b with _ => _ end = true =>
           destruct (cchecks (sig_of p) (find_class_t p) (Datatypes.length (p_classes p)) cx r g b) as [G1|]; [exists G1; reflexivity | discriminate] end end.
 Qed.
+
+(* the two halves together, for method bodies (constructor, destructor and function bodies are the same with their
+   context): in a program the class-level checker accepts, the rule for every expression form holds at every position
+   of every method of every class *)
+Corollary accepted_program_method_rules p cd md G' e e' :
+  ccheck_program p = true -> In cd (p_classes p) -> In md (cd_meths cd) ->
+  let sg := sig_of p in let cl := find_class_t p in let n := List.length (p_classes p) in
+  let cx := mkCx (Some (cd_name cd)) (md_static md) false in
+  inside_list sg cl n cx (md_ret md) (params_env (md_params md)) (md_body md) G' e -> within e' e ->
+  rule_ok sg cl n cx G' e'.
+Proof.
+  intros H Ic Im. cbv zeta. intros I W.
+  destruct (accepted_program_bodies p H) as [_ Hc]. destruct (Hc cd Ic) as [Hm _]. destruct (Hm md Im) as [G1 E].
+  exact (rules_hold_in_every_position (sig_of p) (find_class_t p) (Datatypes.length (p_classes p)) _ _ _ _ G1 G' e e' E I W).
+Qed.
